@@ -652,3 +652,109 @@ def snapshot_honoured(ctx):
 def _mut_snapshot(tree):
     r = mut.replace_expr(W, 'Wallet.utxos_update', 'utxos is None', 'not utxos').mutate(tree)
     return bool(r)
+
+
+@PROP.obligation('C08.store-own-keys', canaries=[
+    mut.replace_expr(W, 'WalletTransaction.store', 'sess.query(DbKey).filter_by(wallet_id=self.hdwallet.wallet_id, address=to.address)', 'sess.query(DbKey).filter_by(id=to.key_id) if getattr(to, "key_id", None) else sess.query(DbKey).filter_by(wallet_id=self.hdwallet.wallet_id, address=to.address)', 'output booked on the key id the object carries'),
+    mut.replace_expr(W, 'WalletTransaction.store', 'sess.query(DbKey).filter_by(wallet_id=self.hdwallet.wallet_id, address=ti.address)', 'sess.query(DbKey).filter_by(address=ti.address)', 'input key looked up in every wallet of the database'),
+])
+def store_own_keys(ctx):
+    """WalletTransaction.store books every input and output on a key of THIS wallet: each look-up of a DbKey row in the method selects by
+    wallet_id = the wallet of the transaction (and the address of the item). A key id carried by an Output object comes from whichever
+    wallet created the transaction (transaction_import reuses the objects): used as a primary-key look-up it books the change of a
+    cosigner's transaction on a key row of another wallet."""
+    q = W + ':WalletTransaction.store'
+    fn = ctx.repo.func(q)
+    n = 0
+    for c in ast.walk(fn):
+        if not (isinstance(c, ast.Call) and isinstance(c.func, ast.Attribute) and c.func.attr == 'query' and c.args and norm(c.args[0]) == 'DbKey'):
+            continue
+        # the chain this query() starts: walk up through .filter_by / .filter / .join ...
+        chain = c
+        parents = {}
+        for x in ast.walk(fn):
+            for y in ast.iter_child_nodes(x):
+                parents[y] = x
+        preds = []
+        cur = c
+        while True:
+            p_ = parents.get(cur)
+            if isinstance(p_, ast.Attribute) and isinstance(parents.get(p_), ast.Call) and parents[p_].func is p_:
+                call = parents[p_]
+                if p_.attr == 'filter_by':
+                    preds += ['%s=%s' % (k.arg, norm(k.value)) for k in call.keywords]
+                elif p_.attr == 'filter':
+                    preds += [norm(a) for a in call.args]
+                cur = call
+                continue
+            break
+        n += 1
+        scoped = any(pr.replace(' ', '') in ('wallet_id=self.hdwallet.wallet_id', 'DbKey.wallet_id==self.hdwallet.wallet_id') for pr in preds)
+        ctx.saw('key look-up: %s -> %s' % (preds, 'own wallet' if scoped else 'NOT scoped to the wallet'))
+        ctx.require(scoped, q, 'a key row is looked up by %s without `wallet_id = self.hdwallet.wallet_id`' % (preds or 'nothing'), c,
+                    'a transaction created by one cosigner wallet and imported, signed and sent by another books its change on a key row of the first wallet: the per-key balances no longer add up to the balance')
+    ctx.floor(n, 2, 'DbKey look-ups in store()')
+
+
+def _clock_kind(e):
+    """'utc' / 'local' / None for the clock an expression reads (datetime.utcnow(), datetime.now(timezone.utc) vs datetime.now() / today())"""
+    kinds = set()
+    for c in ast.walk(e):
+        if not isinstance(c, ast.Call):
+            continue
+        f = norm(c.func)
+        if f in ('datetime.utcnow', 'datetime.datetime.utcnow'):
+            kinds.add('utc')
+        elif f in ('datetime.now', 'datetime.datetime.now'):
+            tz = c.args[0] if c.args else next((k.value for k in c.keywords if k.arg == 'tz'), None)
+            kinds.add('utc' if tz is not None and 'utc' in norm(tz).lower() else ('local' if tz is None else 'other'))
+        elif f in ('datetime.today', 'datetime.datetime.today', 'date.today', 'time.localtime'):
+            kinds.add('local')
+    if 'local' in kinds:
+        return 'local'
+    if kinds == {'utc'}:
+        return 'utc'
+    return None if not kinds else 'other'
+
+
+@PROP.obligation('C08.utc-cutoff', canaries=[
+    mut.replace_expr(W, 'Wallet.transactions_remove_unconfirmed', 'datetime.utcnow()', 'datetime.now()', 'age of unconfirmed transactions measured with the local clock'),
+])
+def utc_cutoff(ctx):
+    """Stored transaction dates are naive UTC (provider timestamps, the column default). Wherever a wallet method compares a stored
+    `.date` with a cutoff, the cutoff is computed from the UTC clock (datetime.utcnow() / datetime.now(timezone.utc)), not from the local
+    one: east of Greenwich transactions_remove_unconfirmed(hours_old=1) would delete a payment broadcast seconds ago and free its inputs."""
+    m = ctx.repo.mod(W)
+    n = 0
+    for qn, fn in sorted(m.functions.items()):
+        rd = None
+        for cmp_ in ast.walk(fn):
+            if not isinstance(cmp_, ast.Compare):
+                continue
+            sides = [cmp_.left] + list(cmp_.comparators)
+            if not any(isinstance(x, ast.Attribute) and x.attr == 'date' for x in sides):
+                continue
+            for other in sides:
+                if isinstance(other, ast.Attribute) and other.attr == 'date':
+                    continue
+                kind = _clock_kind(other)
+                src = norm(other)
+                if kind is None and isinstance(other, ast.Name):
+                    if rd is None:
+                        rd = ReachingDefs(fn)
+                    nid = rd.node_of_ast(cmp_)
+                    vals = [d.value for d in rd.reaching(nid, other.id) if d.value is not None] if nid is not None else []
+                    ks = set(_clock_kind(v) for v in vals)
+                    ks.discard(None)
+                    kind = 'local' if 'local' in ks else ('utc' if ks == {'utc'} else (None if not ks else 'other'))
+                    src = ' / '.join(norm(v)[:60] for v in vals) or src
+                if kind is None:
+                    continue        # not a clock reading (a date handed in by the caller)
+                n += 1
+                ctx.saw('%s: stored date compared with `%s` (%s clock)' % (qn, src[:70], kind))
+                if kind == 'local':
+                    ctx.violate(W + ':' + qn, 'a stored (UTC) transaction date is compared with `%s`, which reads the LOCAL clock' % src[:80], cmp_,
+                                'with a local time ahead of UTC, transactions_remove_unconfirmed(hours_old=1) deletes a payment broadcast seconds ago: its inputs are unspent again and are spent twice')
+                elif kind == 'other':
+                    ctx.unsure('%s: clock of `%s` not classified' % (qn, src[:60]))
+    ctx.floor(n, 1, 'comparisons of stored dates with the clock')
